@@ -25,6 +25,8 @@ type c10Op struct {
 	N    int    `json:"n,omitempty"`    // tick: number of ticks
 	NW   bool   `json:"nw,omitempty"`   // do not wait for the wheel to become quiescent after this call
 	NilV bool   `json:"nilv,omitempty"` // set: the value is an untyped nil (recorded as -1)
+	Re   int    `json:"re,omitempty"`   // set: when this task executes, its callback re-arms the key with delay Re*I ...
+	RN   int    `json:"rn,omitempty"`   // ... at most RN times (the periodic-task idiom: SetTimer from inside the execute callback)
 	Pan  []int  `json:"pan,omitempty"`  // drain: the drain function panics for these keys (after recording the hand-over)
 }
 
@@ -54,6 +56,8 @@ func c10Expand(ops []c10Op) []c10Op {
 }
 
 type c10Case struct {
+	Iv    int     `json:"iv,omitempty"` // index into c10Intervals (0 = 10 ms)
+	KK    int     `json:"kk,omitempty"` // Go type of the keys: 0 int, 1 string, 2 comparable struct, 3 pointer
 	Slots int     `json:"slots"`
 	Ops   []c10Op `json:"ops"`
 	Lat   int     `json:"lat,omitempty"` // slow-exec rule: every execute callback sleeps Lat half-intervals
@@ -106,10 +110,68 @@ func c10SetVal(o c10Op) (any, int) {
 	return o.Val, o.Val
 }
 
-func c10Delay(o c10Op) time.Duration {
-	d := time.Duration(o.M) * c10Interval
+// tick intervals: the wheel only divides delays by its interval, so the behaviour must not
+// depend on the unit
+var c10Intervals = []time.Duration{c10Interval, time.Nanosecond, time.Millisecond, time.Second, time.Hour, 7 * time.Microsecond}
+
+func c10Iv(c c10Case) time.Duration {
+	if c.Iv <= 0 || c.Iv >= len(c10Intervals) {
+		return c10Interval
+	}
+	return c10Intervals[c.Iv]
+}
+
+type c10KeyStruct struct {
+	A int
+	B string
+}
+
+// c10Keys maps key indices to key values of the case's key type and back.
+type c10Keys struct {
+	mu   sync.Mutex
+	kind int
+	ptrs map[int]*int
+	back map[any]int
+}
+
+func (ks *c10Keys) of(i int) any {
+	if ks.kind == 0 {
+		return i
+	}
+	ks.mu.Lock()
+	defer ks.mu.Unlock()
+	var k any
+	switch ks.kind {
+	case 1:
+		k = fmt.Sprintf("key-%d", i)
+	case 2:
+		k = c10KeyStruct{A: i, B: "k"}
+	default:
+		p, ok := ks.ptrs[i]
+		if !ok {
+			p = new(int)
+			*p = i
+			ks.ptrs[i] = p
+		}
+		k = p
+	}
+	ks.back[k] = i
+	return k
+}
+
+func (ks *c10Keys) index(k any) int {
+	if ks.kind == 0 {
+		return k.(int)
+	}
+	ks.mu.Lock()
+	defer ks.mu.Unlock()
+	return ks.back[k]
+}
+
+func c10Delay(o c10Op, iv time.Duration) time.Duration {
+	d := time.Duration(o.M) * iv
 	if o.Half {
-		d += c10Interval / 2
+		d += iv / 2
 	}
 	return d
 }
@@ -125,16 +187,46 @@ func c10Interp(t *testing.T, c c10Case) (v kit.Verdict) {
 		var fires []c10Fire
 		ticks := 0
 		tk := &c10Ticker{c: make(chan time.Time), stopped: make(chan struct{})}
-		w, err := newTimingWheelWithClock(c10Interval, c.Slots, func(k, val any) {
+		iv := c10Iv(c)
+		ks := &c10Keys{kind: c.KK, ptrs: map[int]*int{}, back: map[any]int{}}
+		if c.Iv != 0 {
+			classes["interval-"+iv.String()] = true
+		}
+		if c.KK != 0 {
+			classes[fmt.Sprintf("key-type-%d", c.KK)] = true
+		}
+		type rearm struct{ re, rn int }
+		rearms := map[int]rearm{}      // harness side, read by the callback (under mu)
+		modelRearms := map[int]rearm{} // model side
+		var w *TimingWheel
+		w, err := newTimingWheelWithClock(iv, c.Slots, func(k, val any) {
+			ki := ks.index(k)
 			mu.Lock()
-			fires = append(fires, c10Fire{key: k.(int), val: c10Val(val), tick: ticks})
+			fires = append(fires, c10Fire{key: ki, val: c10Val(val), tick: ticks})
+			ra := rearms[ki]
+			if ra.rn > 0 {
+				rearms[ki] = rearm{ra.re, ra.rn - 1}
+			}
 			mu.Unlock()
+			if ra.rn > 0 {
+				// re-entrant call from inside the execute callback; ErrClosed after Stop is fine
+				_ = w.SetTimer(k, val, time.Duration(ra.re)*iv)
+			}
 		}, tk)
 		if err != nil {
 			fail = "constructor: " + err.Error()
 			return
 		}
 		model := map[int]c10Pending{}
+		// fire applies the model's side of an execution at the current tick
+		fire := func(k int, p c10Pending) {
+			delete(model, k)
+			if ra := modelRearms[k]; ra.rn > 0 {
+				modelRearms[k] = rearm{ra.re, ra.rn - 1}
+				model[k] = c10Pending{val: p.val, due: ticks + ra.re}
+				classes["rearmed-from-callback"] = true
+			}
+		}
 		stopped, drained := false, false
 		take := func() []c10Fire {
 			mu.Lock()
@@ -158,11 +250,16 @@ func c10Interp(t *testing.T, c c10Case) (v kit.Verdict) {
 				switch o.Kind {
 				case "set":
 					sv, _ := c10SetVal(o)
-					err = w.SetTimer(o.Key, sv, c10Delay(o))
+					if !stopped {
+						mu.Lock()
+						rearms[o.Key] = rearm{o.Re, o.RN}
+						mu.Unlock()
+					}
+					err = w.SetTimer(ks.of(o.Key), sv, c10Delay(o, iv))
 				case "move":
-					err = w.MoveTimer(o.Key, c10Delay(o))
+					err = w.MoveTimer(ks.of(o.Key), c10Delay(o, iv))
 				case "remove":
-					err = w.RemoveTimer(o.Key)
+					err = w.RemoveTimer(ks.of(o.Key))
 				}
 				if !o.NW {
 					kit.Wait()
@@ -197,6 +294,7 @@ func c10Interp(t *testing.T, c c10Case) (v kit.Verdict) {
 							classes["far-delay"] = true
 						}
 						model[o.Key] = c10Pending{val: mv, due: ticks + o.M}
+						modelRearms[o.Key] = rearm{o.Re, o.RN}
 					case "move":
 						if pending {
 							classes["move-pending"] = true
@@ -223,15 +321,15 @@ func c10Interp(t *testing.T, c c10Case) (v kit.Verdict) {
 				switch o.Kind {
 				case "badset":
 					if o.M > 0 {
-						err = w.SetTimer(nil, o.Val, time.Duration(o.M)*c10Interval)
+						err = w.SetTimer(nil, o.Val, time.Duration(o.M)*iv)
 					} else {
-						err = w.SetTimer(o.Key, o.Val, time.Duration(o.M)*c10Interval)
+						err = w.SetTimer(ks.of(o.Key), o.Val, time.Duration(o.M)*iv)
 					}
 				case "badmove":
 					if o.M > 0 {
-						err = w.MoveTimer(nil, time.Duration(o.M)*c10Interval)
+						err = w.MoveTimer(nil, time.Duration(o.M)*iv)
 					} else {
-						err = w.MoveTimer(o.Key, time.Duration(o.M)*c10Interval)
+						err = w.MoveTimer(ks.of(o.Key), time.Duration(o.M)*iv)
 					}
 				case "badremove":
 					err = w.RemoveTimer(nil)
@@ -256,7 +354,7 @@ func c10Interp(t *testing.T, c c10Case) (v kit.Verdict) {
 						for k, p := range model {
 							if p.due == ticks {
 								want = append(want, c10Fire{key: k, val: p.val, tick: ticks})
-								delete(model, k)
+								fire(k, p)
 							}
 						}
 					}
@@ -282,10 +380,10 @@ func c10Interp(t *testing.T, c c10Case) (v kit.Verdict) {
 				drainPanicked := false
 				err := w.Drain(func(k, val any) {
 					dm.Lock()
-					got = append(got, c10Fire{key: k.(int), val: c10Val(val), drained: true})
+					got = append(got, c10Fire{key: ks.index(k), val: c10Val(val), drained: true})
 					dm.Unlock()
 					for _, pk := range o.Pan {
-						if pk == k.(int) {
+						if pk == ks.index(k) {
 							dm.Lock()
 							drainPanicked = true
 							dm.Unlock()
@@ -342,14 +440,22 @@ func c10Interp(t *testing.T, c c10Case) (v kit.Verdict) {
 		}
 		// horizon: every pending task must still fire exactly at its tick
 		if !stopped {
-			maxDue := ticks
-			for _, p := range model {
-				if p.due > maxDue && p.due-ticks < c10Far/2 {
-					maxDue = p.due
+			// tick until nothing near is pending any more (tasks re-armed from their callback
+			// extend the horizon), then one more revolution
+			nearest := func() int {
+				maxDue := ticks
+				for _, p := range model {
+					if p.due > maxDue && p.due-ticks < c10Far/2 {
+						maxDue = p.due
+					}
 				}
+				return maxDue
 			}
-			extra := maxDue - ticks + c.Slots + 1
-			for j := 0; j < extra; j++ {
+			end := nearest() + c.Slots + 1
+			for ticks < end {
+				if n := nearest(); !drained && n > ticks && n+c.Slots+1 > end {
+					end = n + c.Slots + 1
+				}
 				ticks++
 				tk.tick()
 				kit.Wait()
@@ -359,7 +465,7 @@ func c10Interp(t *testing.T, c c10Case) (v kit.Verdict) {
 					for k, p := range model {
 						if p.due == ticks {
 							want = append(want, c10Fire{key: k, val: p.val, tick: ticks})
-							delete(model, k)
+							fire(k, p)
 						}
 					}
 				}
@@ -380,7 +486,7 @@ func c10Interp(t *testing.T, c c10Case) (v kit.Verdict) {
 				var got, want []c10Fire
 				err := w.Drain(func(k, val any) {
 					dm.Lock()
-					got = append(got, c10Fire{key: k.(int), val: c10Val(val), drained: true})
+					got = append(got, c10Fire{key: ks.index(k), val: c10Val(val), drained: true})
 					dm.Unlock()
 				})
 				kit.Wait()
@@ -422,6 +528,16 @@ func c10FarM(rt *rapid.T) int {
 
 func c10Gen(rt *rapid.T) c10Case {
 	c := c10Case{Slots: rapid.IntRange(1, 12).Draw(rt, "slots")}
+	if rapid.IntRange(0, 3).Draw(rt, "ivq") == 3 {
+		c.Iv = rapid.IntRange(1, len(c10Intervals)-1).Draw(rt, "iv")
+	}
+	if rapid.IntRange(0, 3).Draw(rt, "kkq") == 3 {
+		c.KK = rapid.IntRange(1, 3).Draw(rt, "kk")
+	}
+	if rapid.IntRange(0, 39).Draw(rt, "manyslots") == 39 { // wheels as large as the ones the repository builds (300) and beyond
+		c.Slots = rapid.SampledFrom([]int{59, 60, 255, 256, 300, 1000, 1024}).Draw(rt, "bigslots")
+	}
+	farOK := c10Iv(c) <= c10Interval // 2^39 intervals must still fit a time.Duration
 	nkeys := rapid.IntRange(1, 3).Draw(rt, "nkeys")
 	n := rapid.IntRange(1, 30).Draw(rt, "nops")
 	wide := false
@@ -458,14 +574,18 @@ func c10Gen(rt *rapid.T) c10Case {
 			o.Half = rapid.Bool().Draw(rt, "half")
 			o.NW = !stopped && rapid.IntRange(0, 2).Draw(rt, "nw") == 0
 			o.NilV = rapid.IntRange(0, 5).Draw(rt, "nilv") == 5
-			if rapid.IntRange(0, 11).Draw(rt, "far") == 11 {
+			if rapid.IntRange(0, 11).Draw(rt, "far") == 11 && farOK {
 				o.M = c10FarM(rt)
+			}
+			if rapid.IntRange(0, 5).Draw(rt, "rearm") == 5 {
+				o.Re = rapid.IntRange(1, maxM).Draw(rt, "re")
+				o.RN = rapid.IntRange(1, 3).Draw(rt, "rn")
 			}
 		case "move":
 			o.Key = rapid.IntRange(0, nkeys-1).Draw(rt, "key")
 			o.M = rapid.IntRange(1, maxM).Draw(rt, "m")
 			o.Half = rapid.Bool().Draw(rt, "half")
-			if rapid.IntRange(0, 11).Draw(rt, "far") == 11 {
+			if rapid.IntRange(0, 11).Draw(rt, "far") == 11 && farOK {
 				o.M = c10FarM(rt)
 			}
 		case "remove":
